@@ -219,6 +219,37 @@ async fn scenario(tag: &str) -> Scenario {
         .await;
         ids.insert(key.to_string(), id);
     }
+    // Derived elements whose inputs the host relabels AFTER they were derived
+    // (the precondition under which a KML write to the derived element could
+    // re-derive its governance block): IU is raised afterwards, IK stays
+    // secret while the derived element's own label is lowered by the host.
+    for key in ["IU", "IK"] {
+        let id = owner_do(&nexus, &format!(r#"CREATE EVIDENCE ?x {{ SET FIELDS {{evidence_class: "Document", payload: "input {key}"}} }}"#), None).await;
+        ids.insert(key.to_string(), id);
+    }
+    owner.classify(DEFAULT_SPACE, ids["IK"].parse().unwrap(), "secret").await.expect("machinery: classify IK");
+    for (key, input) in [("DA1", "IU"), ("DA2", "IU"), ("DA3", "IU"), ("DA4", "IU"), ("DL1", "IK"), ("DL2", "IK")] {
+        let mut params = Map::new();
+        params.insert("p".into(), json!(ids["P1"]));
+        params.insert("a".into(), json!({"id": ids["Ann"]}));
+        let id = owner_do(
+            &nexus,
+            &format!(r#"CREATE ASSERTION ?x {{ SET FIELDS {{proposition: :p, asserted_by: :a, stance: "support", mode: "inferred", confidence: 0.5}} SET STRUCTURAL {{ ("evidence", "{}") {{role: "support"}} }} }}"#, ids[input]),
+            Some(params),
+        )
+        .await;
+        ids.insert(key.to_string(), id);
+    }
+    for key in ["DE1", "DE2", "DE3"] {
+        let id = owner_do(&nexus, &format!(r#"CREATE EVIDENCE ?x {{ SET FIELDS {{evidence_class: "Document", payload: "derived {key}"}} SET STRUCTURAL {{ ("source", "{}") }} }}"#, ids["IU"]), None).await;
+        ids.insert(key.to_string(), id);
+    }
+    let id = owner_do(&nexus, &format!(r#"CREATE ACTIVITY ?x {{ SET FIELDS {{activity_class: "Consolidation", status: "running"}} SET STRUCTURAL {{ ("inputs", "{}") }} }}"#, ids["IU"]), None).await;
+    ids.insert("DT1".to_string(), id);
+    owner.classify(DEFAULT_SPACE, ids["IU"].parse().unwrap(), "secret").await.expect("machinery: raise IU");
+    for key in ["DL1", "DL2"] {
+        owner.classify(DEFAULT_SPACE, ids[key].parse().unwrap(), "internal").await.expect("machinery: lower a derived label");
+    }
     owner.classify(DEFAULT_SPACE, ids["E1"].parse().unwrap(), "secret").await.expect("machinery: classify E1");
     owner.classify(DEFAULT_SPACE, ids["E2"].parse().unwrap(), "public").await.expect("machinery: classify E2");
     owner.elevate_authority(DEFAULT_SPACE, ids["E2"].parse().unwrap(), "advisory").await.expect("machinery: elevate E2");
@@ -418,6 +449,18 @@ fn battery(s: &Scenario) -> Vec<Cmd> {
 
     // 4. ordinary mutations of every clause family (the destructive ones last)
     for (family, text) in [
+        // writes to EXISTING derived elements whose inputs were relabelled by the
+        // host since (raised: DA*, DE*, DT1; own label lowered under a secret input: DL*)
+        ("SET_RETENTION", r#"SET RETENTION "{DA1}" {retention_class: "standard"}"#),
+        ("UPDATE", r#"UPDATE "{DA2}" SET FACET "MnemonicState" {salience: 0.3}"#),
+        ("RETRACT_ASSERTION", r#"RETRACT ASSERTION "{DA3}""#),
+        ("SUPERSEDE_ASSERTION", r#"MUTATE { CREATE ASSERTION ?n { SET FIELDS {proposition: "{P1}", asserted_by: {id: "{Ann}"}, stance: "reject", mode: "inferred"} } SUPERSEDE ASSERTION "{DA4}" BY ?n }"#),
+        ("SET_RETENTION", r#"SET RETENTION "{DL1}" {retention_class: "standard"}"#),
+        ("ARCHIVE", r#"ARCHIVE "{DL2}""#),
+        ("ARCHIVE", r#"ARCHIVE "{DE1}""#),
+        ("SET_RETENTION", r#"SET RETENTION "{DE2}" {retention_class: "standard"}"#),
+        ("CORRECT_EVIDENCE", r#"MUTATE { CREATE EVIDENCE ?n { SET FIELDS {evidence_class: "Document", payload: "corrected"} } CORRECT EVIDENCE "{DE3}" BY ?n }"#),
+        ("TRANSITION_ACTIVITY", r#"TRANSITION ACTIVITY "{DT1}" TO "completed""#),
         ("CREATE_CONCEPT", r#"CREATE CONCEPT ?x { TYPE "Person" NAME "Una" SET ATTRIBUTES {note: "x", authority: "executable", trust: 1.0, role: "admin"} SET FACET "MnemonicState" {salience: 0.5} }"#),
         ("UPSERT_CONCEPT", r#"UPSERT CONCEPT ?x { MATCH {type: "Person", key: "tom"} SET FIELDS {name: "Tom"} SET ATTRIBUTES {note: "y"} }"#),
         ("UPSERT_CONCEPT", r#"UPSERT CONCEPT ?x { MATCH {id: "{Cat}"} SET ATTRIBUTES {note: "touched"} }"#),
@@ -649,7 +692,7 @@ fn main() {
     run.add("states", states.len() as u64);
     run.set("refusals_by_code", json!(refused));
     run.set("protected_field_spellings", json!(protected_names()));
-    run.rule("every field-name position of every KML clause family x every protected field spelling, as text and as a pre-parsed tree; ordinary mutations of all 16 clause families each also as PREVIEW KML / VALIDATE KML / dry run with a self-declared purpose; control-plane look-alike statements; KQL/META reads; x 3 roles (owner, broad writer, restricted reader); the field-name section is spread over 5 scenario Nexus instances per role, the rest runs in fixed order on the first; EffectiveAuthority::authorize over all permissions x all elements for 4 Principals is compared before/after each whole sequence; distinct = governance+element-block states a command was sent from");
+    run.rule("every field-name position of every KML clause family x every protected field spelling, as text and as a pre-parsed tree; ordinary mutations of all 16 clause families each also as PREVIEW KML / VALIDATE KML / dry run with a self-declared purpose, including writes to existing derived elements (Assertions citing Evidence, Evidence with a source, an Activity with inputs) whose inputs the host relabelled since; control-plane look-alike statements; KQL/META reads; x 3 roles (owner, broad writer, restricted reader); the field-name section is spread over 5 scenario Nexus instances per role, the rest runs in fixed order on the first; EffectiveAuthority::authorize over all permissions x all elements for 4 Principals is compared before/after each whole sequence; distinct = governance+element-block states a command was sent from");
     run.assume("commands reach the engine through anda_kip::execute_request (text or `ast` operation); the control plane holds every record kind except approvals (spending an approval is documented behaviour); a PURGE leaving the documented stub {purged, content_digest} in the erased element's block is not counted as a change");
     run.finish();
 }
